@@ -266,9 +266,12 @@ static void *arena_alloc(size_t size, BlockKind kind) {
     }
     if (!reused) {
         size_t o = g_bump + RZ;
-        if (o + rsize + RZ > ASZ) {
-            fprintf(stderr, "qsim: arena exhausted (%zu)\n", size);
-            _exit(3);
+        if (o + rsize + RZ > ASZ || size > (size_t(1) << 28)) {
+            // a request no caller could mean (garbage size after memory corruption, runaway growth): in a real
+            // process operator new would throw and the -fno-exceptions library would terminate
+            g_in_rt = false;
+            add_violation("alloc-huge", "", "allocation request of " + std::to_string(size) + " bytes", true);
+            abort_run();
         }
         off    = (uint32_t)o;
         g_bump = o + rsize;
